@@ -580,7 +580,15 @@ func registerHarnessIntrinsics(in *Interp, pkgPath string) {
 		return BVConst(uint64(w), 64)
 	})
 	reg("verifEffects", func(in *Interp, fr *Frame, a []V) V {
-		return BVConst(uint64(len(in.Effects)), 64)
+		// OS-facing effects only (file system, processes, network, exit);
+		// process-wide library state ("global:") is verifSharedState's subject
+		n := 0
+		for _, e := range in.Effects {
+			if strings.HasPrefix(e, "os:") || e == "os.Exit" {
+				n++
+			}
+		}
+		return BVConst(uint64(n), 64)
 	})
 }
 
